@@ -13,7 +13,8 @@ from metric_learn._util import _check_n_components
 
 def spd(rng, d):
     A = rng.randn(d, d)
-    return A.dot(A.T) + d * np.eye(d)
+    S = A.dot(A.T) + d * np.eye(d)
+    return np.asfortranarray(S) if rng.rand() < 0.5 else S     # either memory layout
 
 
 def spd_int(rng, d):
